@@ -600,6 +600,11 @@ UnsubBuiltinClauses(T, prev, ev, post) ==
   \cup If(ev.after # SelectSeq(ev.before, LAMBDA x : x # ev.target), {C("C10:unsubscribe")})
   \cup If(post.core # prev.core, {C("C10:unsubscribe-changed-state")})
 
+SubBuiltinClauses(T, prev, ev, post) ==
+       If(ev.out # "ok", {C("C10:subscribe-raised")})
+  \cup If(ev.after # Append(ev.before, ev.target), {C("C10:subscribe")})
+  \cup If(post.core # prev.core, {C("C10:subscribe-changed-state")})
+
 CreateOrGetClauses(T, prev, ev, post) ==
     LET i == FirstInstanceIdx(KindsOf(T.kinds, prev.subs), ev.cls)
     IN If(ev.out # "ok", {C("C10:create-or-get-raised")})
@@ -660,6 +665,7 @@ DClauses0(T, l, prev, post) ==
            [] ev.a = "Create"      -> CreateClauses(T, prev, ev, post)
            [] ev.a = "Unsub"       -> UnsubClauses(T, prev, ev, post)
            [] ev.a = "UnsubBuiltin" -> UnsubBuiltinClauses(T, prev, ev, post)
+           [] ev.a = "SubBuiltin"  -> SubBuiltinClauses(T, prev, ev, post)
            [] ev.a = "CreateOrGetCond" -> CreateOrGetCondClauses(T, prev, ev, post)
            [] ev.a = "CreateOrGet" -> CreateOrGetClauses(T, prev, ev, post)
            [] OTHER -> {C("M:unknown-event")}
